@@ -99,6 +99,10 @@ def mesh2Num : P String := do
   out := out ++ dump2 m
   for q in [0:nvars] do
     out := out ++ s!" {wRes Wire.wr (Mesh2.trapezium m q)} {wRes Wire.wr (Mesh2.squareTrapezium m q)}"
+  let prec := 1 + (m.nx + 2 * m.ny + nvars) % 6
+  let enc (s : String) : String := if s.isEmpty then "-" else (s.replace " " ",").replace "\n" "/"
+  out := out ++ s!" xn {wArr m.xnodes} yn {wArr m.ynodes}"
+  out := out ++ s!" file {prec} {wRes enc (Fmt.output2 m prec)} filevar {wRes enc (Fmt.outputVar2 m 0 prec)}"
   pure out
 
 def exec (op : String) : P (Option String) := do
